@@ -402,7 +402,7 @@ def evaluate__abs(self: XPathFunction, context: ta.ContextType = None) \
     elif isinstance(item, float) and math.isnan(item):
         return item
     elif isinstance(item, XPathNode):
-        value = self.string_value(item)
+        value = self.atomic_string_value(item)
         try:
             return abs(Decimal(value))
         except DecimalException:
@@ -751,7 +751,7 @@ def select__unordered(self: XPathFunction, context: ta.ContextType = None) \
     if self.context is not None:
         context = self.context
 
-    yield from sorted([x for x in self[0].select(context)], key=lambda x: self.string_value(x))
+    yield from sorted([x for x in self[0].select(context)], key=lambda x: self.atomic_string_value(x))
 
 
 ###
@@ -1600,7 +1600,7 @@ def select__id(self: XPathFunction, context: ta.ContextType = None) -> Iterator[
         context = self.context
 
     idrefs = {x for item in self[0].select(context)
-              for x in self.string_value(item).split() if Id.is_valid(x)}
+              for x in self.atomic_string_value(item).split() if Id.is_valid(x)}
 
     if context is None:
         raise self.missing_context()
